@@ -296,6 +296,10 @@ def plan(tier, seed):
         specs.append({"kind": "file", "file": f, "tier": tier, "seed": seed})
     for k in range(nstruct // batch):
         specs.append({"kind": "bpseq", "n": batch, "gen_seed": seed * 1000 + k, "tier": tier, "seed": seed})
+    H, T = [[0, 2], [1, 3]], [[0, 3], [1, 4], [2, 5]]
+    specs.append({"kind": "bpseq", "many": [[H, 0, 10], [T, 0, 4], [H, 1, 11]], "gen_seed": seed * 1000 + 900, "tier": tier, "seed": seed})
+    if tier != "quick":
+        specs.append({"kind": "bpseq", "many": [[H, 0, 12], [T, 1, 5], [H, 0, 13]], "gen_seed": seed * 1000 + 901, "tier": tier, "seed": seed})
     nmap, mbatch = (24, 12) if tier == "quick" else (400, 25)
     for k in range(nmap // mbatch):
         specs.append({"kind": "mapping", "n": mbatch, "gen_seed": seed * 1000 + 500 + k, "tier": tier, "seed": seed})
@@ -341,7 +345,12 @@ def run_shard(spec) -> ShardResult:
         inputs = [{"id": f"m{spec['gen_seed']}_{k}", "kind": "mapping", "case": c} for k, c in enumerate(cases)]
         tag = f"m{spec['gen_seed']}"
     else:
-        structs = collect_structures(spec["n"], spec["gen_seed"])
+        if spec.get("many"):
+            # structures with MORE THAN 1000 admissible notations (independent pseudoknots multiply them): size limits,
+            # truncation and batching inside the enumeration would act here and nowhere else
+            structs = [ssref.repeated_motif([tuple(c) for c in chords], hp, copies) for chords, hp, copies in spec["many"]]
+        else:
+            structs = collect_structures(spec["n"], spec["gen_seed"])
         inputs = [{"id": f"s{spec['gen_seed']}_{k}", "kind": "bpseq", "text": ssref.bpseq_text(s[0], s[1]),
                    "seq": s[0], "pairs": [list(p) for p in s[1]]} for k, s in enumerate(structs)]
         tag = f"b{spec['gen_seed']}"
@@ -364,7 +373,7 @@ def run_shard(spec) -> ShardResult:
             cj = {"mapping": {k: v for k, v in inp["case"].items() if k != "entries"}, "n_entries": len(ents)}
         else:
             nt = m.get("n_all", 0) >= 2
-            labs = ["bpseq"] + (["all_dot_brackets>=2"] if nt else [])
+            labs = ["bpseq"] + (["all_dot_brackets>=2"] if nt else []) + (["all_dot_brackets>1000"] if m.get("n_all", 0) > 1000 else [])
             cj = {"seq": inp["seq"], "pairs": inp["pairs"], **m}
         res.note_case(cj, nt, labs)
         for d in result[inp["id"]]:
